@@ -127,30 +127,51 @@ example :
 
 /-! ## Field prefixes -/
 
-/-- `C16.fields`: in `do_fieldnames`, a field prefix `name:` (a field of the schema) directly
+/-- `C16.fields`: in `do_fieldnames`, a field prefix `name:` (a field of the schema when the parser
+    has a schema and removes unknown names; any name for a schema-less parser or with
+    `remove_unknown=False`, where the first loop of `do_fieldnames` does not run) directly
     followed by a node `x` that is neither whitespace nor another prefix gives its name to exactly
     that node — to all of it (`setFieldname` descends into a group and sets every descendant that
     has no field of its own, `override=False`) and to nothing else: the nodes before the prefix and
     the nodes after `x` come out exactly as they do when the pair is not there. -/
 theorem fields (c : Cfg) (k : GK) (b : Rat) (pre post : List Node) (name orig : Str) (x : Node)
     (hw : x.isWs = false) (hf : x.isFname = false)
-    (hknown : knownNames c (pre ++ .fname name orig :: x :: post)) :
+    (hknown : c.removeUnknown = true → c.schemaTruthy = true →
+      knownNames c (pre ++ .fname name orig :: x :: post)) :
     ∃ P x' Q,
       doFieldnames c (.group k pre b) = .ok (.group k P b) ∧
       doFieldnames c x = .ok x' ∧
       doFieldnames c (.group k post b) = .ok (.group k Q b) ∧
       doFieldnames c (.group k (pre ++ .fname name orig :: x :: post) b)
         = .ok (.group k (P ++ setFieldname name false x' :: Q) b) := by
-  have hkpre : knownNames c pre := fun n hn => hknown n (by simp [hn])
-  have hkpost : knownNames c post := fun n hn => hknown n (by simp [hn])
+  have stage1_id' : ∀ l, (c.removeUnknown = true → c.schemaTruthy = true → knownNames c l) →
+      stage1 c (l.map (fieldsOut c)) = l.map (fieldsOut c) := by
+    intro l h
+    unfold stage1
+    split
+    · next hc => exact fnStage1_id c _ (knownNames_map c l (h hc.1 hc.2))
+    · rfl
+  have hkpre : c.removeUnknown = true → c.schemaTruthy = true → knownNames c pre :=
+    fun h1 h2 n hn => hknown h1 h2 n (by simp [hn])
+  have hkpost : c.removeUnknown = true → c.schemaTruthy = true → knownNames c post :=
+    fun h1 h2 n hn => hknown h1 h2 n (by simp [hn])
   refine ⟨fieldsScan (pre.map (fieldsOut c)), fieldsOut c x, fieldsScan (post.map (fieldsOut c)), ?_, ?_, ?_, ?_⟩
-  · rw [doFieldnames_group, stage1_id c _ (knownNames_map c pre hkpre)]
+  · rw [doFieldnames_group, stage1_id' pre hkpre]
   · exact doFieldnames_eq_fieldsOut c x
-  · rw [doFieldnames_group, stage1_id c _ (knownNames_map c post hkpost)]
-  · rw [doFieldnames_group, stage1_id c _ (knownNames_map c _ hknown)]
+  · rw [doFieldnames_group, stage1_id' post hkpost]
+  · rw [doFieldnames_group, stage1_id' _ hknown]
     have hx := fieldsOut_props c x hw hf
     simp only [List.map_append, List.map_cons]
     rw [fieldsOut_nongroup c (n := .fname name orig) rfl, fieldsScan_scope _ _ _ _ _ hx.1 hx.2]
+
+/-- `fields` applies to a schema-less parser (`QueryParser(name, None)`) with no condition on the names -/
+example (c : Cfg) (hs : c.schemaTruthy = false) (k : GK) (b : Rat) (pre post : List Node) (name orig : Str)
+    (x : Node) (hw : x.isWs = false) (hf : x.isFname = false) :
+    ∃ P x' Q, doFieldnames c (.group k pre b) = .ok (.group k P b) ∧ doFieldnames c x = .ok x' ∧
+      doFieldnames c (.group k post b) = .ok (.group k Q b) ∧
+      doFieldnames c (.group k (pre ++ .fname name orig :: x :: post) b)
+        = .ok (.group k (P ++ setFieldname name false x' :: Q) b) :=
+  fields c k b pre post name orig x hw hf (fun _ h => by rw [hs] at h; cases h)
 
 /-- instance (the scan behind `fields`): `a t:b d` — only `b` gets the field; a prefix followed
     by whitespace becomes a word again -/
@@ -599,5 +620,153 @@ theorem precedence_default (c : Cfg) (hp : priorized c.filters = defaultPipeline
   rw [show doOperators defaultOps t5 = _ from e8]
   rfl
 
+
+/-! ## Comparison signs (GtLtPlugin) and wildcard-to-prefix conversion -/
+
+/-- `C16.gtlt`: the range node `make_range` builds for `field:<rel>text` selects exactly the
+    values the comparison reads as (`num` interprets the end-point texts; `=<` is `<=`, `=>` is
+    `>=`). -/
+theorem gtlt_meaning (num : Str → Int) (t : Str) (rel : Rel) (x : Int) :
+    (match makeRange t rel with
+     | .range s e sx ex _ => inRange (s.map num) (e.map num) sx ex x
+     | _ => false) = Rel.holds rel x (num t) := by
+  cases rel <;> simp [makeRange, inRange, Rel.holds]
+
+theorem globMatch_star (s : List Nat) : globMatch [42] s = true := by
+  induction s with
+  | nil => rw [globMatch]; simp [globMatch]
+  | cons c s ih => rw [globMatch]; simp [ih]
+
+theorem globMatch_prefix (p : List Nat) (hp : ∀ c ∈ p, c ≠ 42 ∧ c ≠ 63) (s : List Nat) :
+    globMatch (p ++ [42]) s = p.isPrefixOf s := by
+  induction p generalizing s with
+  | nil => simp [globMatch_star]
+  | cons c p ih =>
+    have hc := hp c (by simp)
+    have ihp := ih (fun x hx => hp x (by simp [hx]))
+    cases s with
+    | nil => rw [List.cons_append, globMatch]; simp [hc.1]
+    | cons d s =>
+      rw [List.cons_append, globMatch]
+      simp only [hc.1, if_false, hc.2, decide_false, Bool.false_or, ihp, List.isPrefixOf]
+      by_cases h : c = d <;> simp [h]
+
+/-- `C16.wildcards`: whenever `do_wildcards` turns a wildcard node into a prefix node
+    (`toPrefix`), the prefix selects exactly the terms the glob selects. -/
+theorem wildcard_prefix_sound (t p : Str) (f f' : Option Str) (b b' : Rat)
+    (h : toPrefix (.text .wild t f b) = .text .prefix p f' b') (s : List Nat) :
+    globMatch t s = p.isPrefixOf s := by
+  simp only [toPrefix] at h
+  split at h
+  · next hcond =>
+    split at h
+    · next hidx =>
+      injection h with _ hp _ _
+      subst hp
+      obtain ⟨hlen, hq⟩ := hcond
+      -- t = dropLast ++ [42], with no star or question mark before the end
+      have hne : t ≠ [] := by intro he; subst he; simp at hlen
+      have hmem : 42 ∈ t := by
+        have : t.idxOf 42 < t.length := by omega
+        exact List.idxOf_lt_length_iff.1 this
+      have hlast : t = t.dropLast ++ [42] := by
+        have hd := List.dropLast_concat_getLast hne
+        have : t.getLast hne = 42 := by
+          have h1 : t[t.idxOf 42]'(List.idxOf_lt_length_iff.2 hmem) = 42 := List.getElem_idxOf _
+          rw [List.getLast_eq_getElem]
+          simp only [hidx] at h1
+          exact h1
+        rw [this] at hd; exact hd.symm
+      have hfree : ∀ c ∈ t.dropLast, c ≠ 42 ∧ c ≠ 63 := by
+        intro c hc
+        constructor
+        · intro he; subst he
+          have h1 : (t.dropLast ++ [42]).idxOf 42 < t.dropLast.length := by
+            rw [List.idxOf_append, if_pos hc]; exact List.idxOf_lt_length_iff.2 hc
+          rw [← hlast, hidx, List.length_dropLast] at h1
+          omega
+        · intro he; subst he
+          have h63 : 63 ∈ t := mem_dropLast hc
+          have : (qmarks.any fun q => t.contains q) = true := by
+            simp only [qmarks, List.any_cons, Bool.or_eq_true]
+            exact Or.inl (by simpa using h63)
+          rw [this] at hq
+          cases hq
+      rw [hlast, List.dropLast_concat]
+      exact globMatch_prefix _ hfree s
+    · injection h with hk; cases hk
+  · injection h with hk; cases hk
+
+
+/-- instances: `n:=<5` reads `n ≤ 5`; `al*` is a prefix, `b*a*` stays a wildcard -/
+example : makeRange [53] .el = .range none (some [53]) false false none ∧
+    toPrefix (.text .wild [97, 108, 42] none 1) = .text .prefix [97, 108] none 1 ∧
+    toPrefix (.text .wild [98, 42, 97, 42] none 1) = .text .wild [98, 42, 97, 42] none 1 := by
+  refine ⟨rfl, ?_, ?_⟩ <;> simp [toPrefix, qmarks] <;> decide
+
+/-! ## Round 2: from the tree to the query object -/
+
+theorem outSeq_full (gk : GK) (hgk : gk = .and ∨ gk = .or) (items : List Expr) (hne : items ≠ [])
+    (hwf : ∀ e ∈ items, e.wf = true) : (outSeq gk items).full = true := by
+  have hs := stripParen_wf items hwf
+  have hne' : stripParen items ≠ [] := by
+    unfold stripParen
+    split
+    · next inner =>
+      have := hwf (.paren inner) (by simp)
+      rw [wf_paren] at this
+      exact this.1
+    · exact hne
+  unfold outSeq
+  apply full_of_all
+  · rcases hgk with h1 | h1 <;> subst h1 <;> simpa using hne'
+  · intro x hx
+    obtain ⟨e, he, rfl⟩ := List.mem_map.1 hx
+    exact out_full gk hgk e (hs e he)
+
+/-- `C16.precedence`, end to end in the model: for a well-formed query all of whose leaves yield a
+    query, `query()` on the tree the pipeline builds returns a query object, `parse` keeps it
+    (`finish`), and it selects exactly the documents the reading of the expression selects. -/
+theorem precedence_query (gk : GK) (hgk : gk = .and ∨ gk = .or) (items : List Expr) (hne : items ≠ [])
+    (hwf : ∀ e ∈ items, e.wf = true) (o : Node → LeafRes) (v : Node → Bool) (w : Nat → Bool)
+    (ho : ∀ n, n.isLeaf = true → ∃ id, o n = .q id true ∧ w id = v n) :
+    ∃ q, query o (outSeq gk items) = .ok (some q) ∧ finish (some q) = q ∧
+      Q.eval w q = evalSeq gk v items := by
+  obtain ⟨q, hq, ht, he⟩ := WM.Parser.query_meaning o v w ho _ (outSeq_full gk hgk items hne hwf)
+  exact ⟨q, hq, by simp [finish, ht], by rw [he, precedence_meaning gk hgk items hwf v]⟩
+
+/-- `C16.precedence`, query stage (`WM.Parser.query_meaning` with its conclusion spelt out): on a
+    tree whose groups have the operands their class needs and whose leaves all yield a query,
+    `GroupNode.query` / `BinaryGroup.query` / `Wrapper.query` return a truthy query object that
+    selects exactly the documents the tree's reading (`Node.eval`) selects. -/
+theorem query_meaning (o : Node → LeafRes) (v : Node → Bool) (w : Nat → Bool)
+    (ho : ∀ n, n.isLeaf = true → ∃ id, o n = .q id true ∧ w id = v n) (t : Node) (hf : t.full = true) :
+    ∃ q, query o t = .ok (some q) ∧ q.truthy = true ∧ Q.eval w q = Node.eval v t :=
+  WM.Parser.query_meaning o v w ho t hf
+
+/-! The `None` cases of the group nodes' `query()` (a leaf yields `None` when the analyzer removes
+    all of its text, e.g. a stop word): they are where the tree's reading and the query part. -/
+
+/-- `NOT <nothing>` is nothing (not "everything") -/
+theorem query_not_none (o : Node → LeafRes) (n0 : Node) (rest : List Node) (b : Rat)
+    (h : query o n0 = .ok none) : query o (.group .not (n0 :: rest) b) = .ok none := by
+  rw [query]; simp [h, bind, Except.bind, pure, Except.pure]
+
+/-- a binary group with one operand that yields nothing is the other operand: `a ANDNOT <nothing>`
+    is `a`, and `<nothing> ANDNOT b` is `b` (not "nothing") -/
+theorem query_binary_none (o : Node → LeafRes) (k : GK) (hk : k = .andnot ∨ k = .andmaybe ∨ k = .require)
+    (a c : Node) (b : Rat) (q : Q) :
+    (query o a = .ok (some q) → query o c = .ok none → query o (.group k [a, c] b) = .ok (some q)) ∧
+    (query o a = .ok none → query o c = .ok (some q) → query o (.group k [a, c] b) = .ok (some q)) ∧
+    (query o a = .ok none → query o c = .ok none → query o (.group k [a, c] b) = .ok (some .null)) := by
+  rcases hk with h | h | h <;> subst h <;> refine ⟨?_, ?_, ?_⟩ <;> intro h1 h2 <;>
+    (rw [query]; simp [h1, h2, bind, Except.bind, pure, Except.pure])
+
+/-- And/Or/DisMax drop the members that yield nothing -/
+theorem query_compound_none (o : Node → LeafRes) (k : GK) (hk : k = .and ∨ k = .or ∨ k = .dismax)
+    (ns : List Node) (b : Rat) (rs : List (Option Q)) (h : ns.mapM (query o) = .ok rs) :
+    query o (.group k ns b) = .ok (some (.compound k (rs.filterMap id) b)) := by
+  rcases hk with h1 | h1 | h1 <;> subst h1 <;> rw [query] <;>
+    first | simp [h, bind, Except.bind, pure, Except.pure] | (intro h'; cases h')
 
 end WM.C16
